@@ -11,6 +11,7 @@ import (
 	"fmt"
 	"io"
 	"math/rand"
+	"os"
 	"strings"
 	"sync"
 	"time"
@@ -92,6 +93,7 @@ type world struct {
 	pendingInbox     int
 	firstLoops       int
 	gateEntered      int
+	pendingHnResolve int
 	dmBusy           bool
 	created          int
 	exited           int
@@ -167,6 +169,9 @@ func (w *world) recordLocked(r raw) {
 		w.svcShutReq = true
 	case "N:hn_resolve":
 		w.hnReleased = true
+		if w.pendingHnResolve > 0 {
+			w.pendingHnResolve--
+		}
 	case "S:update-rejected", "S:teardown-rejected":
 		w.svcRejected = true
 	case "S:update-routed", "S:teardown-routed":
@@ -239,6 +244,9 @@ func (w *world) stableLocked() bool {
 	if w.pendingInbox > 0 || w.created > w.firstLoops || w.dmBusy || w.pendingStart > 0 {
 		return false
 	}
+	if w.pendingHnResolve > 0 {
+		return false
+	}
 	if w.created > w.gateEntered { // run() submits the hostname request before its loop; the hostname service has not picked it up yet
 		return false
 	}
@@ -277,6 +285,8 @@ func (w *world) trackerString() string {
 func (w *world) waitFor(what string, timeout time.Duration, cond func() bool) error {
 	deadline := time.NewTimer(timeout)
 	defer deadline.Stop()
+	tick := time.NewTicker(100 * time.Millisecond) // safety net only: every state change also notifies
+	defer tick.Stop()
 	for {
 		w.mu.Lock()
 		ok := cond()
@@ -286,6 +296,7 @@ func (w *world) waitFor(what string, timeout time.Duration, cond func() bool) er
 		}
 		select {
 		case <-w.notify:
+		case <-tick.C:
 		case <-deadline.C:
 			w.mu.Lock()
 			defer w.mu.Unlock()
@@ -428,13 +439,19 @@ func (w *world) gate(name string) {
 		time.Sleep(d)
 	}
 	w.mu.Lock()
-	w.hnGateHeld = false
+	if !forced {
+		w.hnGateHeld = false
+	}
 	r := "ok"
 	if w.hnWillFail {
 		r = "failed"
 	}
 	w.recordLocked(raw{Th: "N", K: "hn_resolve", R: r})
 	w.mu.Unlock()
+	select {
+	case w.notify <- struct{}{}:
+	default:
+	}
 }
 
 func (w *world) randDelayLocked() time.Duration {
@@ -670,7 +687,10 @@ func (w *world) close() {
 	}()
 	select {
 	case <-done:
-	case <-time.After(10 * time.Second):
+	case <-time.After(3 * time.Minute):
+		// the system under test does not stop: later worlds in this process could not be trusted
+		fmt.Fprintln(os.Stderr, "deployh: cluster service did not shut down:", w.trackerString())
+		os.Exit(2)
 	}
 	w.cancel()
 	w.bus.Close()
@@ -710,8 +730,9 @@ func (w *world) releaseHostnames() bool {
 	}
 	close(w.hnGate)
 	w.hnGate = nil
+	w.hnGateHeld = false
 	// the hostname service goroutine records hn_resolve itself; until then the system is not stable
-	w.hnReleased = true
+	w.pendingHnResolve++
 	return true
 }
 
@@ -758,4 +779,30 @@ func (w *world) observe() (resvHeld, hnHeld, ok bool) {
 	}
 	resvHeld = len(st.Inventory.Active)+len(st.Inventory.Pending) > 0
 	return resvHeld, hnHeld, true
+}
+
+// observeIfQuiescent records the release observations whenever nothing is in flight and no gate is closed
+// (the obligations "at quiescence" are judged at every such point, not only at the end of a script).
+func (w *world) observeIfQuiescent() {
+	w.mu.Lock()
+	q := w.stableLocked() && w.inCall == 0 && !w.hnGateHeld && len(w.calls) == 0
+	w.mu.Unlock()
+	if q {
+		w.observeFinal()
+	}
+}
+
+func (w *world) observeFinal() {
+	w.mu.Lock()
+	dup := len(w.raws) > 0 && w.raws[len(w.raws)-1].K == "obs"
+	w.mu.Unlock()
+	if dup {
+		return // nothing happened since the last observation
+	}
+	resv, hn, ok := w.observe()
+	r := raw{Th: "H", K: "obs", Runch: resv, Err: hn, R: "ok"}
+	if !ok {
+		r.R = "unavailable"
+	}
+	w.record(r)
 }
